@@ -14,8 +14,17 @@ Definition round_he_div (a b : Z) : Z :=
   else if b <? 2 * r then q + 1
   else if Z.even q then q else q + 1.
 
-Definition arm_margin (n : Z) : Z :=
-  Z.max by_arm_min_arm_bins (round_he_div (n * fst by_arm_frac) (snd by_arm_frac)).
+(* int(round(frac * n)) in exact arithmetic *)
+Definition round_share (n : Z) : Z := round_he_div (n * fst by_arm_frac) (snd by_arm_frac).
+
+Definition arm_margin (n : Z) : Z := Z.max by_arm_min_arm_bins (round_share n).
+
+(* what is known of the float result r of round(frac * n): it is an integer nearest
+   to frac * n up to the tie, |r - frac*n| <= 1/2 *)
+Definition round_contract (n r : Z) : Prop :=
+  2 * Z.abs (snd by_arm_frac * r - fst by_arm_frac * n) <= snd by_arm_frac.
+Definition round_contract_b (n r : Z) : bool :=
+  2 * Z.abs (snd by_arm_frac * r - fst by_arm_frac * n) <=? snd by_arm_frac.
 
 (* numpy argmax: index and value of the first maximum *)
 Fixpoint argmax_from (best_i best_v i : Z) (l : list Z) : Z * Z :=
@@ -42,10 +51,18 @@ Fixpoint gaps_of (l : list A) : list Z :=
   | _ => []
   end.
 
+(* by_arm with the rounded 10 % share r = int(round(0.1 * n)) supplied: that
+   integer goes through float arithmetic and is float-sensitive when n = 5 (mod 10)
+   (0.1 * n is not exactly k + 1/2), so it is an ORACLE with the contract
+   round_contract (DESIGN section 2); arm_cut below instantiates it with the
+   exact round-half-even, the two agree whenever n <> 5 (mod 10) and the margin
+   is min_arm_bins for every n <= 504 whichever way a half is rounded. *)
+Definition arm_margin_with (r : Z) : Z := Z.max by_arm_min_arm_bins r.
+
 (* index of the first row of the q arm, if the chromosome is split *)
-Definition arm_cut (l : list A) : option Z :=
+Definition arm_cut_with (r : Z) (l : list A) : option Z :=
   let n := Z.of_nat (length l) in
-  let m := arm_margin n in
+  let m := arm_margin_with r in
   if 2 * m + 1 <? n then
     match argmax_first (firstn (Z.to_nat (n - 2 * m - 1)) (skipn (Z.to_nat m) (gaps_of l))) with
     | Some (i, size) =>
@@ -54,14 +71,20 @@ Definition arm_cut (l : list A) : option Z :=
     end
   else None.
 
-Definition arm_split (l : list A) : list (list A) :=
+Definition arm_split_with (r : Z) (l : list A) : list (list A) :=
   match l with
   | [] => []
   | _ =>
-      match arm_cut l with
+      match arm_cut_with r l with
       | Some j => [firstn (Z.to_nat j) l; skipn (Z.to_nat j) l]
       | None => [l]
       end
   end.
+
+Definition arm_cut (l : list A) : option Z :=
+  arm_cut_with (round_share (Z.of_nat (length l))) l.
+
+Definition arm_split (l : list A) : list (list A) :=
+  arm_split_with (round_share (Z.of_nat (length l))) l.
 
 End Arms.
